@@ -75,6 +75,28 @@ def call_text(body, start, subst):
     return t
 
 
+def role_names(body):
+    """the locals by role: {actual name: canonical name}.  oldlocale = the variable initialised from uselocale(NULL),
+    duploc = from duplocale(..), newloc = from newlocale(..).  A renamed local is still recognised."""
+    roles = {}
+    for canon, pat in (("oldlocale", r"(\w+)\s*=\s*uselocale\s*\(\s*NULL\s*\)"),
+                       ("duploc", r"(\w+)\s*=\s*duplocale\s*\("),
+                       ("newloc", r"(\w+)\s*=\s*newlocale\s*\(")):
+        m = re.search(pat, body)
+        if m:
+            roles[m.group(1)] = canon
+    return roles
+
+
+def canon_names(text, roles):
+    # two passes through placeholders so that a swap of names cannot collide
+    for i, actual in enumerate(roles):
+        text = re.sub(r"\b%s\b" % re.escape(actual), "\x00%d\x00" % i, text)
+    for i, actual in enumerate(roles):
+        text = text.replace("\x00%d\x00" % i, roles[actual])
+    return text
+
+
 def conditional_at(body, pos):
     """is the statement at `pos` nested in a block that is controlled by if/else/for/while/do/switch, or is it the
     unbraced body of one?  (body = text of the function from its opening brace)"""
@@ -121,13 +143,33 @@ def lean_strs(xs):
     return "[" + ", ".join('"%s"' % x.replace("\\", "\\\\").replace('"', '\\"') for x in xs) + "]"
 
 
+def fold_macros(text, subst):
+    """write NULL / LC_NUMERIC_MASK back where the preprocessor expanded them (whitespace-tolerant)"""
+    for exp, name in subst:
+        if not exp:
+            continue
+        toks = re.findall(r"\w+|\S", exp)
+        text = re.sub(r"\s*".join(re.escape(t) for t in toks), name, text)
+    return text
+
+
+def events_in(body, raw, lo, hi, roles, with_returns):
+    """locale calls (and `return`s) of body[lo:hi] in source order, locals named by role, `?` = under a condition"""
+    ev = [(p, t) for p, t in calls_in(body, raw, lo, hi, [])]
+    if with_returns:
+        ev += [(m.start(), "return") for m in re.finditer(r"\breturn\b", body) if lo <= m.start() < hi]
+    ev.sort()
+    return [("?" if conditional_at(body, p) else "") + canon_names(t, roles) for p, t in ev]
+
+
 def facts(repo, cfg):
     out = []
     pp = preprocess(repo, cfg, "json_tokener.c")
-    raw = func_body(pp, "json_tokener_parse_ex")
+    raw = fold_macros(func_body(pp, "json_tokener_parse_ex"), macro_expansions(repo, cfg))
     body = blank_literals(raw)          # same positions; strings/char literals cannot match the patterns below
-    subst = macro_expansions(repo, cfg)
-    sw = re.search(r"\buselocale\s*\(\s*newloc\s*\)\s*;", body)
+    roles = role_names(body)
+    newloc = [a for a, c in roles.items() if c == "newloc"]
+    sw = re.search(r"\buselocale\s*\(\s*%s\s*\)\s*;" % re.escape(newloc[0]), body) if newloc else None
     lab = None
     for m in re.finditer(r"(?<![\w?])out\s*:(?!:)", body):
         k = m.start() - 1
@@ -142,11 +184,9 @@ def facts(repo, cfg):
         out.append("def earlyReturnsAfterSwitch : Nat := %d  -- %s\n" % (BAD, c))
         out.append("def gotoOutAfterSwitch : Nat := 0  -- %s\n" % c)
         out.append("def gotoOutBeforeSwitch : Nat := %d  -- %s\n" % (BAD, c))
-        out.append("def returnsBeforeSwitch : Nat := %d  -- %s\n" % (BAD, c))
         out.append("def localeCallsInBody : Nat := %d  -- %s\n" % (BAD, c))
-        out.append("def prologueLocaleCalls : List String := []  -- %s\n" % c)
+        out.append("def prologueLocaleEvents : List String := []  -- %s\n" % c)
         out.append("def epilogueLocaleCalls : List String := []  -- %s\n" % c)
-        out.append("def switchUnconditional : Bool := false  -- %s\n" % c)
     else:
         pro, mid, epi = body[:sw.start()], body[sw.end():lab.start()], body[lab.end():]
         nret = len(re.findall(r"\breturn\b", mid))
@@ -155,32 +195,26 @@ def facts(repo, cfg):
                    % len(re.findall(r"\bgoto\s+out\s*;", mid)))
         out.append("def gotoOutBeforeSwitch : Nat := %d  -- parse_ex: `goto out;` before `uselocale(newloc);` (newloc would be uninitialised)\n"
                    % len(re.findall(r"\bgoto\s+out\s*;", pro)))
-        out.append("def returnsBeforeSwitch : Nat := %d  -- parse_ex: `return` statements before `uselocale(newloc);` (size check, duplocale ENOMEM, newlocale failure)\n"
-                   % len(re.findall(r"\breturn\b", pro)))
         out.append("def localeCallsInBody : Nat := %d  -- parse_ex: calls of uselocale/newlocale/duplocale/freelocale/setlocale between the switch and `out:`\n"
-                   % len(calls_in(body, raw, sw.end(), lab.start(), subst)))
-        pc = calls_in(body, raw, 0, sw.end(), subst)
-        out.append("def prologueLocaleCalls : List String := %s  -- parse_ex: locale calls up to the switch, in source order (`?` = under a condition)\n"
-                   % lean_strs([("?" if conditional_at(body, p) else "") + t for p, t in pc]))
-        # epilogue: locale calls after `out:` and before the first return; a call under a condition is marked `?`
+                   % len(calls_in(body, raw, sw.end(), lab.start(), [])))
+        out.append("def prologueLocaleEvents : List String := %s  -- parse_ex: locale calls and `return`s up to the switch, in source order; locals named by role; `?` = under a condition\n"
+                   % lean_strs(events_in(body, raw, 0, sw.end(), roles, True)))
+        # epilogue: locale calls after `out:` and before the first return
         first_ret = re.search(r"\breturn\b", epi)
         hi = lab.end() + (first_ret.start() if first_ret else len(epi))
-        ec = calls_in(body, raw, lab.end(), hi, subst)
-        out.append("def epilogueLocaleCalls : List String := %s  -- parse_ex: locale calls between `out:` and the first `return` after it (`?` = under a condition)\n"
-                   % lean_strs([("?" if conditional_at(body, p) else "") + t for p, t in ec]))
-        out.append("def switchUnconditional : Bool := %s  -- parse_ex: `uselocale(newloc);` is not nested in an if/else/loop (only plain blocks)\n"
-                   % ("true" if not conditional_at(body, sw.start()) else "false"))
+        out.append("def epilogueLocaleCalls : List String := %s  -- parse_ex: locale calls between `out:` and the first `return` after it; `?` = under a condition\n"
+                   % lean_strs(events_in(body, raw, lab.end(), hi, roles, False)))
 
     # serializer: the decimal-separator fix-up of json_object_double_to_json_string_format
     pj = preprocess(repo, cfg, "json_object.c")
     braw = func_body(pj, "json_object_double_to_json_string_format")
     b = blank_literals(braw)
     flat = re.sub(r"\s+", "", braw)
-    fix = re.search(r"p=strchr\(buf,','\);if\(p\)\*p='\.';elsep=strchr\(buf,'\.'\);", flat) is not None
+    fixm = re.search(r"(\w+)=strchr\((\w+),','\);if\(\1\)\*\1='\.';else\1=strchr\(\2,'\.'\);", flat)
     out.append("def serFixupCommaToPoint : Bool := %s  -- double_to_json_string_format: p = strchr(buf, ','); if (p) *p = '.'; else p = strchr(buf, '.');\n"
-               % ("true" if fix else "false"))
+               % ("true" if fixm else "false"))
     out.append("def serLocaleCalls : Nat := %d  -- double_to_json_string_format: calls of uselocale/newlocale/duplocale/freelocale/setlocale/localeconv\n"
                % (len(re.findall(LOCALE_FN, b)) + len(re.findall(r"\blocaleconv\s*\(", b)) if b else BAD))
-    m = re.search(r"charbuf\[(\d+)\]", flat)
+    m = re.search(r"char%s\[(\d+)\]" % re.escape(fixm.group(2)), flat) if fixm else None
     out.append("def serBufSize : Nat := %d  -- double_to_json_string_format: char buf[N]\n" % (int(m.group(1)) if m else 0))
     return "".join(out)
